@@ -198,7 +198,16 @@ def st_segment(ops, base_dir, clock, files_model):
                     # members of a collection are serialised through serialize(): empty members need the full format
                     if any(len(m) == 0 and selected_minimal(m) for m in members):
                         continue
-                    cfg = MazeDatasetCollectionConfig(name="coll%d" % len(members), maze_dataset_configs=[m.cfg for m in members])
+                    mode = op[3] if len(op) > 3 else "shared"
+                    if mode == "copied":
+                        # what MazeDatasetCollection.generate / from_config produce: the collection's config lists configuration
+                        # objects that are equal to, but distinct from, the members' own
+                        import copy
+
+                        cfg = MazeDatasetCollectionConfig(name="coll%d" % len(members), maze_dataset_configs=[copy.deepcopy(m.cfg) for m in members])
+                        bump("probe_collection_with_distinct_config_objects")
+                    else:
+                        cfg = MazeDatasetCollectionConfig(name="coll%d" % len(members), maze_dataset_configs=[m.cfg for m in members])
                     slots[op[1]] = MazeDatasetCollection(cfg=cfg, maze_datasets=members)
                     events.append(["mkcoll", [len(m) for m in members]])
                     if any(len(m) == 0 for m in members):
@@ -383,7 +392,7 @@ def gen_history(rng: random.Random, tier: str) -> dict:
         elif r < 0.94:
             k = rng.randint(1, min(3, len(slots)))
             dst = "c%d" % i
-            ops.append(["mkcoll", dst, rng.sample(slots, k)])
+            ops.append(["mkcoll", dst, rng.sample(slots, k), rng.choice(["shared", "copied", "copied"])])
             slots.append(dst)
         else:
             ops.append(["restart"])
